@@ -1863,7 +1863,7 @@ func genC20(r *rng, tier string, emit func(string)) {
 			}
 			return 50
 		}
-		if name == "renegrefuse" || name == "renegbig" { // connections: 1 + iters/4
+		if name == "renegrefuse" || name == "renegbig" || name == "warnflood" || name == "lrucache" { // connections: 1 + iters/4 (lrucache: 200*iters cache calls per goroutine)
 			if thorough {
 				return 40
 			}
